@@ -355,4 +355,83 @@ Proof.
       * change (vcur v2) with (vcur v). change (vsize v2) with (vsize v). rewrite Hc. exact Hw.
 Qed.
 
+(* ---- format effectors written as elements (newline, carriage return, tab, backspace) ---- *)
+Definition is_fe (b : byte) : bool := (b =? 8) || (b =? 9) || (b =? 10) || (b =? 13).
+
+Lemma fe_cases b : is_fe b = true -> b = 8 \/ b = 9 \/ b = 10 \/ b = 13.
+Proof. unfold is_fe. lia. Qed.
+
+Lemma format_effector_fe g : format_effector g = true -> is_fe (g0 g) = true.
+Proof. unfold format_effector, is_fe. intros H. apply andb_prop in H as [H _]. exact H. Qed.
+
+Lemma format_effector_control g : format_effector g = true -> is_control_glyph g = true.
+Proof. intros H. apply format_effector_fe in H. unfold is_fe in H. unfold is_control_glyph. lia. Qed.
+
+Lemma vt_c0_frame v b : is_fe b = true ->
+  let v' := vt_c0 cfg v b in
+  lex v' = lex v /\ malformed v' = malformed v /\ unknown v' = unknown v /\
+  vsize v' = vsize v /\ rend v' = rend v /\ g0cs v' = g0cs v /\ utf8 v' = utf8 v /\
+  vsaved v' = vsaved v /\ modes_of v' = modes_of v /\ trace v' = trace v.
+Proof.
+  intros H. apply fe_cases in H. unfold modes_of.
+  destruct H as [H|[H|[H|H]]]; subst b; unfold vt_c0, scroll_up;
+    repeat match goal with |- context[if ?c then _ else _] => destruct c end;
+    cbn; repeat split; reflexivity.
+Qed.
+
+Lemma payload_control v g : lex v = Ground -> format_effector g = true ->
+  vt_bytes cfg v (wire g) = vt_c0 cfg v (g0 g).
+Proof.
+  intros Hg Hf. apply format_effector_fe in Hf. pose proof (fe_cases _ Hf) as Hc.
+  assert (Hw : wire g = [g0 g]).
+  { unfold wire, utf8_len, hi. destruct (cs_eqb (gcs g) CsUtf8); [|reflexivity].
+    assert (negb (128 <=? g0 g) = true) as -> by lia. reflexivity. }
+  rewrite Hw. unfold vt_bytes, fold_left, vt_byte. rewrite Hg.
+  assert ((g0 g =? 27) = false) as -> by lia.
+  unfold vt_text. assert ((g0 g <? 32) = true) as -> by lia. reflexivity.
+Qed.
+
+Lemma sync_write_control st v e l :
+  Sync st v -> ts_last st = Some l -> format_effector (eg e) = true ->
+  wf_colour (fg (ea e)) = true -> wf_colour (bg (ea e)) = true ->
+  let st' := fst (write_element beh st e) in
+  let v' := vt_execs cfg v (snd (write_element beh st e)) in
+  Sync st' v' /\ trace v' = trace v /\ modes_of v' = modes_of v /\ ts_cur st' = None.
+Proof.
+  intros S Hl Hfe Hfg Hbg.
+  destruct S as [Slex Smal Sunk Ssize Scs Srend Scur Ssaved Svis].
+  unfold last_cs in Scs. rewrite Hl in Scs. specialize (Srend l Hl).
+  unfold write_element. rewrite Hl. cbn [fst snd].
+  rewrite !vt_execs_app.
+  rewrite (exec_change_charset v _ (gcs (eg e)) Scs).
+  set (v1 := set_utf8 (set_g0cs v (g0_after v (gcs (eg e)))) (cs_eqb (gcs (eg e)) CsUtf8)).
+  assert (Hcs1 : cs_ok (gcs (eg e)) v1) by (apply (cs_ok_after v _ _ Scs)).
+  rewrite (exec_change_attribute' v1 (ea l) (ea e)) by (first [exact Srend | assumption]).
+  set (v2 := set_rend v1 (rend_of (ea e))).
+  assert (Hcs2 : cs_ok (gcs (eg e)) v2) by exact Hcs1.
+  cbn [vt_execs fold_left vt_exec].
+  rewrite (payload_control v2 (eg e)) by (first [exact Slex | exact Hfe]).
+  pose proof (vt_c0_frame v2 (g0 (eg e)) (format_effector_fe _ Hfe)) as F. cbv zeta in F.
+  destruct F as (Flex & Fmal & Funk & Fsize & Frend & Fg0 & Futf & Fsaved & Fmodes & Ftrace).
+  set (v3 := vt_c0 cfg v2 (g0 (eg e))) in *.
+  destruct (advance_other (set_last st (Some e)) (eg e)) as (Asz & Ala & Asv & Avi).
+  cbn [ts_size ts_last ts_saved ts_vis set_last] in Asz, Ala, Asv, Avi.
+  pose proof (advance_cur_control (set_last st (Some e)) (eg e) (format_effector_control _ Hfe)) as Acur.
+  split; [|split; [exact Ftrace|split; [exact Fmodes|exact Acur]]].
+  constructor.
+  - rewrite Flex. exact Slex.
+  - rewrite Fmal. exact Smal.
+  - rewrite Funk. exact Sunk.
+  - rewrite Fsize, Asz. exact Ssize.
+  - unfold last_cs. rewrite Ala. unfold cs_ok in *. rewrite Fg0, Futf. exact Hcs2.
+  - intros l' Hl'. rewrite Ala in Hl'. inversion Hl'; subst l'. rewrite Frend. reflexivity.
+  - intros p Hp. rewrite Acur in Hp. discriminate.
+  - intros p Hp. rewrite Asv in Hp. rewrite Fsaved, Fsize. exact (Ssaved p Hp).
+  - intros b Hb. rewrite Avi in Hb.
+    assert (Hv : vis v3 = vis v2)
+      by (apply (f_equal (fun m => fst (fst (fst (fst m))))) in Fmodes; exact Fmodes).
+    rewrite Hv. exact (Svis b Hb).
+Qed.
+
 End Sync.
+
